@@ -25,7 +25,11 @@ Entry points with their defaults: `sysdef` = `ImmuneSystem()` (every component d
   `obs` / `canary` for an agent that was never registered raise ValueError.  `shadow`: an independent `ImmuneSystem()` and
   stand-alone watcher / thymus come alive and confirm threats for the same agent ids and hashes (no shared state: no-op).
 Pipeline with the real display: `dreg a windowSize minObs`, `obs a text|brk|none|empty struct words len time conf err
-  sdLen sdTime sdConf` (the three stdevs of the window after this observation), `canary a b`.
+  sdLen sdTime sdConf` (the three stdevs of the window after this observation), `canary a b`.  Public attributes of the display
+  touched by hand: `dcan a a1|a0|clear|assign|keep1|pop0` (`display.canary_results` appended to / cleared / re-assigned /
+  cut to its newest entry / oldest dropped), `dset a window|min k` (`display.window_size` / `min_observations` assigned),
+  `dobs a pop0|dellast|dup sdLen sdTime sdConf` (`display.observations` popped / the newest entry appended once more by
+  hand; the stdevs of the window afterwards).
 -/
 open Operon Operon.Proto Operon.Immune
 
@@ -156,6 +160,12 @@ def realReg (st : DSt) (a : Nat) : DSt :=
   { st with sys := st.sys.register a,
             regs := if st.regs.contains a then st.regs else st.regs ++ [a],
             displays := (a, ⟨st.winSize, st.minObs, [], []⟩, ⟨0, 0, 0⟩) :: st.displays.filter (·.1 != a) }
+
+/-- install the new window of agent `a`; what the agent shows now is what `generate_peptide` makes of it -/
+def putDisplay (st : DSt) (a : Nat) (d' : Display) (sd : Sds) (head tags : String) : DSt × String :=
+  ({ st with sys := st.sys.showPeptide a (d'.generate sd),
+             displays := (a, d', sd) :: st.displays.filter (·.1 != a) },
+    head ++ (if (d'.generate sd).isSome then " ## d:peptide" else " ## d:short") ++ tags)
 
 def step (st : DSt) (toks : List String) : DSt × String :=
   match toks with
@@ -310,6 +320,41 @@ def step (st : DSt) (toks : List String) : DSt × String :=
       ({ st with sys := st.sys.showPeptide (natD a) (d'.generate sd),
                  displays := (natD a, d', sd) :: st.displays.filter (·.1 != natD a) },
         "ok n=0" ++ (if (d'.generate sd).isSome then " ## d:peptide" else " ## d:short") ++ " d:cleared")
+  | ["dcan", a, how] =>
+    -- `display.canary_results` mutated / re-assigned by hand (not through `record_canary_result`)
+    match st.displays.find? (·.1 == natD a) with
+    | none => (st, "no-display")
+    | some (_, d, sd) =>
+      let l : Option (List Bool) :=
+        if how == "a1" then some (d.canaries ++ [true])
+        else if how == "a0" then some (d.canaries ++ [false])
+        else if how == "clear" || how == "assign" then some []
+        else if how == "keep1" then some (d.canaries.drop (d.canaries.length - 1))
+        else if how == "pop0" then some (d.canaries.drop 1)
+        else none
+      match l with
+      | none => (st, "bad-op")
+      | some l => putDisplay st (natD a) (d.setCanaries l) sd s!"ok c={l.length}" " d:canary-by-hand"
+  | ["dset", a, what, k] =>
+    match st.displays.find? (·.1 == natD a) with
+    | none => (st, "no-display")
+    | some (_, d, sd) =>
+      if what == "window" then putDisplay st (natD a) (d.setWindow (intD k)) sd "ok" " d:set-window"
+      else if what == "min" then putDisplay st (natD a) (d.setMinObs (intD k)) sd "ok" " d:set-min"
+      else (st, "bad-op")
+  | ["dobs", a, how, sl, stt, sc] =>
+    -- `display.observations` mutated / re-assigned by hand; the three stdevs of the window afterwards come on the line
+    match st.displays.find? (·.1 == natD a) with
+    | none => (st, "no-display")
+    | some (_, d, _) =>
+      let l : Option (List Ob) :=
+        if how == "pop0" then some (d.obs.drop 1)
+        else if how == "dellast" then some (d.obs.take (d.obs.length - 1))
+        else if how == "dup" then some (d.obs ++ d.obs.drop (d.obs.length - 1))
+        else none
+      match l with
+      | none => (st, "bad-op")
+      | some l => putDisplay st (natD a) (d.setObs l) ⟨ratOf sl, ratOf stt, ratOf sc⟩ s!"ok n={l.length}" " d:obs-by-hand"
   | ["mrecall", a, v, sh] =>
     let (s', r) := st.sys.recall (natD a) (natD v) (natD sh)
     ({ st with sys := s' },
